@@ -2,6 +2,9 @@ import ZkElGamal.Proofs.SigmaC01
 import ZkElGamal.Proofs.SigmaC02b
 import ZkElGamal.Proofs.SigmaC03
 import ZkElGamal.Proofs.Slices
+import ZkElGamal.Props.C02
+import ZkElGamal.Props.C03
+import ZkElGamal.Props.C20
 /-!
 # C05 — every true statement with a valid witness can be proven, and the proof verifies
 
@@ -13,6 +16,11 @@ For each sigma instruction `X`, over the abstract instantiation with lawful code
   (the `u64 → F` cast is only used as a function), openings and nonces, provided the statement
   is admitted by the identity policy and the masking commitments are not the identity
   (a nonce condition that fails with probability ≈ 2⁻²⁵² for honest randomness — stated, not hidden).
+
+Also: `Validity.complete2/3`, `BatchedValidity.complete2/3` (lo/hi combined with the recomputed `t`),
+`Cap.complete_below` (amount below the cap: equality branch real, max branch simulated) and
+`Cap.complete_at` (amount = cap: max branch real, equality branch simulated, delta commitment free),
+each with `new_context`. Range instructions: see C04 (`range_complete…`).
 
 The model's prover and verifier recompute the same challenge from the same bytes; that the
 *Rust* prover and verifier do is the correspondence part of the check.
@@ -295,5 +303,392 @@ theorem complete (s r ys yx yr : F) (P Cm : G) (ct : Ct G) (amount : ℕ) (b : B
   module
 
 end CtCmtEq
+
+/-! ## grouped-ciphertext validity, batched validity, percentage-with-cap: byte-level completeness -/
+section more
+variable [DecidableEq F]
+
+namespace Validity
+open Sigma.Validity
+
+/-- the produced bytes start with the statement encoding (keys, grouped ciphertext), any handle count -/
+theorem new_context (n : ℕ) (Ps : List G) (g : GCt G) (amount : ℕ) (r yr yx : F) (b : Bytes)
+    (h : Validity.new T n Ps g amount r yr yx = some b) :
+    ∃ pf : Bytes, b = (Ps.map PtCodec.enc).flatten ++ g.enc ++ pf := by
+  unfold Validity.new at h
+  simp only at h
+  split at h
+  · cases h
+  · cases h; exact ⟨_, rfl⟩
+
+theorem complete2 (P1 P2 : G) (g : GCt G) (amount : ℕ) (r yr yx : F) (b : Bytes)
+    (hnew : Validity.new T 2 [P1, P2] g amount r yr yx = some b)
+    (hP1 : P1 ≠ 0) (hC : g.C ≠ 0)
+    (hY0 : msm [yr, yx] [Hp, Gp] ≠ 0) (hY1 : yr • P1 ≠ 0) :
+    Validity.verifyProof F G T 2 b = true := by
+  have l := LawfulLen.pt_len (F := F) (G := G)
+  have ls := LawfulLen.sc_len (F := F) (G := G)
+  have hg : g = groupedEncryptWith [P1, P2] (ScCodec.ofNat amount : F) r := by
+    by_contra hne
+    have := (C20.validity_new_none_iff (T := T) 2 [P1, P2] g amount r yr yx).mpr hne
+    rw [hnew] at this; cases this
+  set x : F := ScCodec.ofNat amount with hx
+  subst hg
+  unfold Validity.new at hnew
+  simp only [← hx] at hnew
+  split at hnew
+  · cases hnew
+  cases hnew
+  set C : G := pedersenWith x r with hCdef
+  set Y0 : G := msm [yr, yx] [Hp, Gp] with hY0def
+  set t0 : T := Validity.transcript0 T 2 [P1, P2] (groupedEncryptWith [P1, P2] x r) with ht0
+  -- the prover's challenge
+  set c : F := (challengesDirect 2 t0
+      (⟨[PtCodec.enc Y0, PtCodec.enc (yr • P1), PtCodec.enc (yr • P2)], [], 0, 0⟩ : Validity.Proof F G)).1 with hc
+  apply (C02.verify2_ok_iff _).mpr
+  refine ⟨⟨P1, P2, C, r • P1, r • P2, Y0, yr • P1, yr • P2, c * r + yr, c * x + yx⟩, ?_, hP1, ?_, hY0, hY1, ?_⟩
+  · simp only [Fields2.decodes, groupedEncryptWith, decryptHandle, GCt.enc, proveDirect, List.map_cons, List.map_nil,
+      List.flatten_cons, List.flatten_nil, List.append_nil, List.append_assoc, List.length_append, l, ls,
+      ptAt, scAt, slice_here, slice_here', slice_skip _ _ _ _ 32 (l _), slice_skip _ _ _ _ 32 (ls _),
+      Nat.reduceSub, Nat.reduceLeDiff, Nat.reduceAdd, LawfulPtCodec.dec_enc, LawfulScCodec.canon_enc,
+      List.getD_cons_zero, List.getD_cons_succ, show ¬ (2 = 3) by decide, if_false, challengeScalar,
+      hc, challengesDirect, ht0, hCdef, hY0def, true_and, and_self, and_true]
+  · simpa [groupedEncryptWith] using hC
+  · simp only [Fields2.parsed]
+    have hsl : [slice (([P1, P2].map PtCodec.enc).flatten ++ (groupedEncryptWith [P1, P2] x r).enc ++
+          proveDirect 2 t0 [P1, P2] x r yr yx) 160 32,
+        slice (([P1, P2].map PtCodec.enc).flatten ++ (groupedEncryptWith [P1, P2] x r).enc ++
+          proveDirect 2 t0 [P1, P2] x r yr yx) 192 32,
+        slice (([P1, P2].map PtCodec.enc).flatten ++ (groupedEncryptWith [P1, P2] x r).enc ++
+          proveDirect 2 t0 [P1, P2] x r yr yx) 224 32]
+        = [PtCodec.enc Y0, PtCodec.enc (yr • P1), PtCodec.enc (yr • P2)] := by
+      simp only [groupedEncryptWith, decryptHandle, GCt.enc, proveDirect, List.map_cons, List.map_nil,
+        List.flatten_cons, List.flatten_nil, List.append_nil, List.append_assoc, l, ls,
+        slice_here, slice_here', slice_skip _ _ _ _ 32 (l _), Nat.reduceSub, Nat.reduceLeDiff, hY0def]
+    rw [hsl]
+    have hcc : ∀ (Ys : List G) (a b' : F), (challengesDirect 2 t0
+        (⟨[PtCodec.enc Y0, PtCodec.enc (yr • P1), PtCodec.enc (yr • P2)], Ys, a, b'⟩ : Validity.Proof F G)).1 = c := by
+      intro Ys a b'; simp only [hc, challengesDirect, challengeScalar]
+    simp only [groupedEncryptWith, decryptHandle, List.map_cons, List.map_nil] at ht0 ⊢
+    rw [← ht0, hcc]
+    generalize (challengesDirect 2 t0 (_ : Validity.Proof F G)).2 = w
+    simp only [E0, Eh, hCdef, hY0def, pedersenWith, msm_cons_cons, msm_nil_left]
+    module
+
+theorem complete3 (P1 P2 P3 : G) (g : GCt G) (amount : ℕ) (r yr yx : F) (b : Bytes)
+    (hnew : Validity.new T 3 [P1, P2, P3] g amount r yr yx = some b)
+    (hP1 : P1 ≠ 0) (hP2 : P2 ≠ 0) (hC : g.C ≠ 0)
+    (hY0 : msm [yr, yx] [Hp, Gp] ≠ 0) (hY1 : yr • P1 ≠ 0) (hY2 : yr • P2 ≠ 0) :
+    Validity.verifyProof F G T 3 b = true := by
+  have l := LawfulLen.pt_len (F := F) (G := G)
+  have ls := LawfulLen.sc_len (F := F) (G := G)
+  have hg : g = groupedEncryptWith [P1, P2, P3] (ScCodec.ofNat amount : F) r := by
+    by_contra hne
+    have := (C20.validity_new_none_iff (T := T) 3 [P1, P2, P3] g amount r yr yx).mpr hne
+    rw [hnew] at this; cases this
+  set x : F := ScCodec.ofNat amount with hx
+  subst hg
+  unfold Validity.new at hnew
+  simp only [← hx] at hnew
+  split at hnew
+  · cases hnew
+  cases hnew
+  set C : G := pedersenWith x r with hCdef
+  set Y0 : G := msm [yr, yx] [Hp, Gp] with hY0def
+  set t0 : T := Validity.transcript0 T 3 [P1, P2, P3] (groupedEncryptWith [P1, P2, P3] x r) with ht0
+  set c : F := (challengesDirect 3 t0
+      (⟨[PtCodec.enc Y0, PtCodec.enc (yr • P1), PtCodec.enc (yr • P2), PtCodec.enc (yr • P3)], [], 0, 0⟩ :
+        Validity.Proof F G)).1 with hc
+  apply (C02.verify3_ok_iff _).mpr
+  refine ⟨⟨P1, P2, P3, C, r • P1, r • P2, r • P3, Y0, yr • P1, yr • P2, yr • P3, c * r + yr, c * x + yx⟩,
+    ?_, hP1, hP2, ?_, hY0, hY1, hY2, ?_⟩
+  · simp only [Fields3.decodes, groupedEncryptWith, decryptHandle, GCt.enc, proveDirect, List.map_cons, List.map_nil,
+      List.flatten_cons, List.flatten_nil, List.append_nil, List.append_assoc, List.length_append, l, ls,
+      ptAt, scAt, slice_here, slice_here', slice_skip _ _ _ _ 32 (l _), slice_skip _ _ _ _ 32 (ls _),
+      Nat.reduceSub, Nat.reduceLeDiff, Nat.reduceAdd, LawfulPtCodec.dec_enc, LawfulScCodec.canon_enc,
+      List.getD_cons_zero, List.getD_cons_succ, if_true, challengeScalar,
+      hc, challengesDirect, ht0, hCdef, hY0def, true_and, and_self, and_true]
+  · simpa [groupedEncryptWith] using hC
+  · simp only [Fields3.parsed]
+    have hsl : [slice (([P1, P2, P3].map PtCodec.enc).flatten ++ (groupedEncryptWith [P1, P2, P3] x r).enc ++
+          proveDirect 3 t0 [P1, P2, P3] x r yr yx) 224 32,
+        slice (([P1, P2, P3].map PtCodec.enc).flatten ++ (groupedEncryptWith [P1, P2, P3] x r).enc ++
+          proveDirect 3 t0 [P1, P2, P3] x r yr yx) 256 32,
+        slice (([P1, P2, P3].map PtCodec.enc).flatten ++ (groupedEncryptWith [P1, P2, P3] x r).enc ++
+          proveDirect 3 t0 [P1, P2, P3] x r yr yx) 288 32,
+        slice (([P1, P2, P3].map PtCodec.enc).flatten ++ (groupedEncryptWith [P1, P2, P3] x r).enc ++
+          proveDirect 3 t0 [P1, P2, P3] x r yr yx) 320 32]
+        = [PtCodec.enc Y0, PtCodec.enc (yr • P1), PtCodec.enc (yr • P2), PtCodec.enc (yr • P3)] := by
+      simp only [groupedEncryptWith, decryptHandle, GCt.enc, proveDirect, List.map_cons, List.map_nil,
+        List.flatten_cons, List.flatten_nil, List.append_nil, List.append_assoc, l, ls,
+        slice_here, slice_here', slice_skip _ _ _ _ 32 (l _), Nat.reduceSub, Nat.reduceLeDiff, hY0def]
+    rw [hsl]
+    have hcc : ∀ (Ys : List G) (a b' : F), (challengesDirect 3 t0
+        (⟨[PtCodec.enc Y0, PtCodec.enc (yr • P1), PtCodec.enc (yr • P2), PtCodec.enc (yr • P3)], Ys, a, b'⟩ :
+          Validity.Proof F G)).1 = c := by
+      intro Ys a b'; simp only [hc, challengesDirect, challengeScalar]
+    simp only [groupedEncryptWith, decryptHandle, List.map_cons, List.map_nil] at ht0 ⊢
+    rw [← ht0, hcc]
+    generalize (challengesDirect 3 t0 (_ : Validity.Proof F G)).2 = w
+    simp only [E0, Eh, hCdef, hY0def, pedersenWith, msm_cons_cons, msm_nil_left]
+    module
+
+end Validity
+
+namespace BatchedValidity
+open Sigma.Validity
+
+theorem new_context (n : ℕ) (Ps : List G) (lo hi : GCt G) (aLo aHi : ℕ) (rLo rHi yr yx : F) (b : Bytes)
+    (h : BatchedValidity.new T n Ps lo hi aLo aHi rLo rHi yr yx = some b) :
+    ∃ pf : Bytes, b = (Ps.map PtCodec.enc).flatten ++ lo.enc ++ hi.enc ++ pf := by
+  unfold BatchedValidity.new at h
+  simp only at h
+  split at h
+  · cases h
+  · split at h
+    · cases h
+    · cases h; exact ⟨_, rfl⟩
+
+theorem complete2 (P1 P2 : G) (lo hi : GCt G) (aLo aHi : ℕ) (rLo rHi yr yx : F) (b : Bytes)
+    (hnew : BatchedValidity.new T 2 [P1, P2] lo hi aLo aHi rLo rHi yr yx = some b)
+    (hP1 : P1 ≠ 0) (hCl : lo.C ≠ 0) (hCh : hi.C ≠ 0)
+    (hY0 : msm [yr, yx] [Hp, Gp] ≠ 0) (hY1 : yr • P1 ≠ 0) :
+    BatchedValidity.verifyProof F G T 2 b = true := by
+  have l := LawfulLen.pt_len (F := F) (G := G)
+  have ls := LawfulLen.sc_len (F := F) (G := G)
+  have hg : lo = groupedEncryptWith [P1, P2] (ScCodec.ofNat aLo : F) rLo ∧
+      hi = groupedEncryptWith [P1, P2] (ScCodec.ofNat aHi : F) rHi := by
+    by_contra hne
+    have := (C20.batched_validity_new_none_iff (T := T) 2 [P1, P2] lo hi aLo aHi rLo rHi yr yx).mpr hne
+    rw [hnew] at this; cases this
+  set xl : F := ScCodec.ofNat aLo with hxl
+  set xh : F := ScCodec.ofNat aHi with hxh
+  obtain ⟨h1, h2⟩ := hg
+  subst h1 h2
+  unfold BatchedValidity.new at hnew
+  simp only [← hxl, ← hxh] at hnew
+  split at hnew
+  · cases hnew
+  split at hnew
+  · cases hnew
+  cases hnew
+  set Y0 : G := msm [yr, yx] [Hp, Gp] with hY0def
+  set tt : F × T := BatchedValidity.challengeT (Sc := F) T 2 [P1, P2] (groupedEncryptWith [P1, P2] xl rLo)
+    (groupedEncryptWith [P1, P2] xh rHi) with htt
+  set c : F := (challengesDirect 2 tt.2
+      (⟨[PtCodec.enc Y0, PtCodec.enc (yr • P1), PtCodec.enc (yr • P2)], [], 0, 0⟩ : Validity.Proof F G)).1 with hc
+  apply (C02.bverify2_ok_iff _).mpr
+  refine ⟨⟨P1, P2, pedersenWith xl rLo, rLo • P1, rLo • P2, pedersenWith xh rHi, rHi • P1, rHi • P2,
+    Y0, yr • P1, yr • P2, c * (rLo + rHi * tt.1) + yr, c * (xl + xh * tt.1) + yx⟩, ?_, hP1, ?_, ?_, hY0, hY1, ?_⟩
+  · simp only [BFields2.decodes, groupedEncryptWith, decryptHandle, GCt.enc, proveDirect, List.map_cons, List.map_nil,
+      List.flatten_cons, List.flatten_nil, List.append_nil, List.append_assoc, List.length_append, l, ls,
+      ptAt, scAt, slice_here, slice_here', slice_skip _ _ _ _ 32 (l _), slice_skip _ _ _ _ 32 (ls _),
+      Nat.reduceSub, Nat.reduceLeDiff, Nat.reduceAdd, LawfulPtCodec.dec_enc, LawfulScCodec.canon_enc,
+      List.getD_cons_zero, List.getD_cons_succ, show ¬ (2 = 3) by decide, if_false, challengeScalar,
+      hc, challengesDirect, htt, hY0def, true_and, and_self, and_true]
+  · simpa [groupedEncryptWith] using hCl
+  · simpa [groupedEncryptWith] using hCh
+  · simp only [BFields2.parsed]
+    have hsl : ∀ X : Bytes, X = ([P1, P2].map PtCodec.enc).flatten ++ (groupedEncryptWith [P1, P2] xl rLo).enc ++
+          (groupedEncryptWith [P1, P2] xh rHi).enc ++
+          proveDirect 2 tt.2 [P1, P2] (xl + xh * tt.1) (rLo + rHi * tt.1) yr yx →
+        [slice X 256 32, slice X 288 32, slice X 320 32]
+        = [PtCodec.enc Y0, PtCodec.enc (yr • P1), PtCodec.enc (yr • P2)] := by
+      intro X hX; subst hX
+      simp only [groupedEncryptWith, decryptHandle, GCt.enc, proveDirect, List.map_cons, List.map_nil,
+        List.flatten_cons, List.flatten_nil, List.append_nil, List.append_assoc, l, ls,
+        slice_here, slice_here', slice_skip _ _ _ _ 32 (l _), Nat.reduceSub, Nat.reduceLeDiff, hY0def]
+    rw [hsl _ rfl]
+    have hcc : ∀ (Ys : List G) (a b' : F), (challengesDirect 2 tt.2
+        (⟨[PtCodec.enc Y0, PtCodec.enc (yr • P1), PtCodec.enc (yr • P2)], Ys, a, b'⟩ : Validity.Proof F G)).1 = c := by
+      intro Ys a b'; simp only [hc, challengesDirect, challengeScalar]
+    simp only [groupedEncryptWith, decryptHandle, List.map_cons, List.map_nil] at htt ⊢
+    rw [← htt, hcc]
+    generalize (challengesDirect 2 tt.2 (_ : Validity.Proof F G)).2 = w
+    generalize tt.1 = t
+    simp only [E0, Eh, hY0def, pedersenWith, msm_cons_cons, msm_nil_left]
+    module
+
+theorem complete3 (P1 P2 P3 : G) (lo hi : GCt G) (aLo aHi : ℕ) (rLo rHi yr yx : F) (b : Bytes)
+    (hnew : BatchedValidity.new T 3 [P1, P2, P3] lo hi aLo aHi rLo rHi yr yx = some b)
+    (hP1 : P1 ≠ 0) (hP2 : P2 ≠ 0) (hCl : lo.C ≠ 0) (hCh : hi.C ≠ 0)
+    (hY0 : msm [yr, yx] [Hp, Gp] ≠ 0) (hY1 : yr • P1 ≠ 0) (hY2 : yr • P2 ≠ 0) :
+    BatchedValidity.verifyProof F G T 3 b = true := by
+  have l := LawfulLen.pt_len (F := F) (G := G)
+  have ls := LawfulLen.sc_len (F := F) (G := G)
+  have hg : lo = groupedEncryptWith [P1, P2, P3] (ScCodec.ofNat aLo : F) rLo ∧
+      hi = groupedEncryptWith [P1, P2, P3] (ScCodec.ofNat aHi : F) rHi := by
+    by_contra hne
+    have := (C20.batched_validity_new_none_iff (T := T) 3 [P1, P2, P3] lo hi aLo aHi rLo rHi yr yx).mpr hne
+    rw [hnew] at this; cases this
+  set xl : F := ScCodec.ofNat aLo with hxl
+  set xh : F := ScCodec.ofNat aHi with hxh
+  obtain ⟨h1, h2⟩ := hg
+  subst h1 h2
+  unfold BatchedValidity.new at hnew
+  simp only [← hxl, ← hxh] at hnew
+  split at hnew
+  · cases hnew
+  split at hnew
+  · cases hnew
+  cases hnew
+  set Y0 : G := msm [yr, yx] [Hp, Gp] with hY0def
+  set tt : F × T := BatchedValidity.challengeT (Sc := F) T 3 [P1, P2, P3] (groupedEncryptWith [P1, P2, P3] xl rLo)
+    (groupedEncryptWith [P1, P2, P3] xh rHi) with htt
+  set c : F := (challengesDirect 3 tt.2
+      (⟨[PtCodec.enc Y0, PtCodec.enc (yr • P1), PtCodec.enc (yr • P2), PtCodec.enc (yr • P3)], [], 0, 0⟩ : Validity.Proof F G)).1 with hc
+  apply (C02.bverify3_ok_iff _).mpr
+  refine ⟨⟨P1, P2, P3, pedersenWith xl rLo, rLo • P1, rLo • P2, rLo • P3, pedersenWith xh rHi, rHi • P1, rHi • P2, rHi • P3,
+    Y0, yr • P1, yr • P2, yr • P3, c * (rLo + rHi * tt.1) + yr, c * (xl + xh * tt.1) + yx⟩, ?_, hP1, hP2, ?_, ?_, hY0, hY1, hY2, ?_⟩
+  · simp only [BFields3.decodes, groupedEncryptWith, decryptHandle, GCt.enc, proveDirect, List.map_cons, List.map_nil,
+      List.flatten_cons, List.flatten_nil, List.append_nil, List.append_assoc, List.length_append, l, ls,
+      ptAt, scAt, slice_here, slice_here', slice_skip _ _ _ _ 32 (l _), slice_skip _ _ _ _ 32 (ls _),
+      Nat.reduceSub, Nat.reduceLeDiff, Nat.reduceAdd, LawfulPtCodec.dec_enc, LawfulScCodec.canon_enc,
+      List.getD_cons_zero, List.getD_cons_succ, if_true, challengeScalar,
+      hc, challengesDirect, htt, hY0def, true_and, and_self, and_true]
+  · simpa [groupedEncryptWith] using hCl
+  · simpa [groupedEncryptWith] using hCh
+  · simp only [BFields3.parsed]
+    have hsl : ∀ X : Bytes, X = ([P1, P2, P3].map PtCodec.enc).flatten ++ (groupedEncryptWith [P1, P2, P3] xl rLo).enc ++
+          (groupedEncryptWith [P1, P2, P3] xh rHi).enc ++
+          proveDirect 3 tt.2 [P1, P2, P3] (xl + xh * tt.1) (rLo + rHi * tt.1) yr yx →
+        [slice X 352 32, slice X 384 32, slice X 416 32, slice X 448 32]
+        = [PtCodec.enc Y0, PtCodec.enc (yr • P1), PtCodec.enc (yr • P2), PtCodec.enc (yr • P3)] := by
+      intro X hX; subst hX
+      simp only [groupedEncryptWith, decryptHandle, GCt.enc, proveDirect, List.map_cons, List.map_nil,
+        List.flatten_cons, List.flatten_nil, List.append_nil, List.append_assoc, l, ls,
+        slice_here, slice_here', slice_skip _ _ _ _ 32 (l _), Nat.reduceSub, Nat.reduceLeDiff, hY0def]
+    rw [hsl _ rfl]
+    have hcc : ∀ (Ys : List G) (a b' : F), (challengesDirect 3 tt.2
+        (⟨[PtCodec.enc Y0, PtCodec.enc (yr • P1), PtCodec.enc (yr • P2), PtCodec.enc (yr • P3)], Ys, a, b'⟩ : Validity.Proof F G)).1 = c := by
+      intro Ys a b'; simp only [hc, challengesDirect, challengeScalar]
+    simp only [groupedEncryptWith, decryptHandle, List.map_cons, List.map_nil] at htt ⊢
+    rw [← htt, hcc]
+    generalize (challengesDirect 3 tt.2 (_ : Validity.Proof F G)).2 = w
+    generalize tt.1 = t
+    simp only [E0, Eh, hY0def, pedersenWith, msm_cons_cons, msm_nil_left]
+    module
+
+end BatchedValidity
+
+namespace Cap
+open Sigma.Cap
+
+theorem new_context (Cm Cd Cc : G) (mx pct delta : ℕ) (rp rd rc : F) (n : Cap.Nonces F) (b : Bytes)
+    (h : Cap.new T Cm Cd Cc mx pct delta rp rd rc n = some b) :
+    ∃ pf : Bytes, b = PtCodec.enc Cm ++ PtCodec.enc Cd ++ PtCodec.enc Cc ++ natLE mx 8 ++ pf := by
+  unfold Cap.new at h
+  split at h
+  · cases h
+  · split at h
+    · cases h
+    · split at h
+      · cases h
+      · cases h; exact ⟨_, rfl⟩
+
+theorem complete_below (Cm Cd Cc : G) (mx pct delta : ℕ) (rp rd rc : F) (n : Cap.Nonces F) (b : Bytes)
+    (hnew : Cap.new T Cm Cd Cc mx pct delta rp rd rc n = some b)
+    (hlt : pct < mx) (hmx : mx < 2 ^ 64)
+    (hCm : Cm ≠ 0) (hCd : Cd ≠ 0) (hCc : Cc ≠ 0)
+    (hYm : msm [n.b_zm, -n.b_cmax, n.b_cmax * (ScCodec.ofNat mx : F)] [Hp, Cm, Gp] ≠ 0)
+    (hYd : msm [n.b_yx, n.b_yd] [Gp, Hp] ≠ 0) (hYc : msm [n.b_yx, n.b_yc] [Gp, Hp] ≠ 0) :
+    Cap.verifyProof F G T b = true := by
+  have l := LawfulLen.pt_len (F := F) (G := G)
+  have ls := LawfulLen.sc_len (F := F) (G := G)
+  have hrel : Cm = pedersenWith (ScCodec.ofNat pct : F) rp ∧
+         (pct < mx → Cd = pedersenWith (ScCodec.ofNat delta : F) rd) ∧
+         Cc = pedersenWith (ScCodec.ofNat delta : F) rc := by
+    by_contra hne
+    have := (C20.cap_new_none_iff (T := T) Cm Cd Cc mx pct delta rp rd rc n).mpr hne
+    rw [hnew] at this; cases this
+  obtain ⟨h1, h2, h3⟩ := hrel
+  have h2 := h2 hlt
+  unfold Cap.new at hnew
+  split at hnew
+  · cases hnew
+  split at hnew
+  · cases hnew
+  split at hnew
+  · cases hnew
+  cases hnew
+  set x : F := ScCodec.ofNat delta with hx
+  set m : F := ScCodec.ofNat mx with hm
+  set Ym : G := msm [n.b_zm, -n.b_cmax, n.b_cmax * m] [Hp, Cm, Gp] with hYmdef
+  set Yd : G := msm [n.b_yx, n.b_yd] [Gp, Hp] with hYddef
+  set Yc : G := msm [n.b_yx, n.b_yc] [Gp, Hp] with hYcdef
+  set c : F := (challengeC F T Cm Cd Cc mx (PtCodec.enc Ym) (PtCodec.enc Yd) (PtCodec.enc Yc)).1 with hc
+  apply (C03.verify_ok_iff _).mpr
+  refine ⟨⟨Cm, Cd, Cc, mx, PtCodec.enc Ym, PtCodec.enc Yd, PtCodec.enc Yc, Ym, Yd, Yc,
+    n.b_zm, n.b_cmax, (c - n.b_cmax) * x + n.b_yx, (c - n.b_cmax) * rd + n.b_yd, (c - n.b_cmax) * rc + n.b_yc⟩,
+    ?_, hCm, hCd, hCc, hYm, hYd, hYc, ?_⟩
+  · apply (C03.parse_spec _ _).mpr
+    simp only [prove, hlt, gt_iff_lt, if_true, proveBelowMax, encodeProof,
+      List.append_assoc, List.length_append, l, ls, natLE_length,
+      ptAt, scAt, slice_here, slice_here', slice_skip _ _ _ _ 32 (l _), slice_skip _ _ _ _ 32 (ls _),
+      slice_skip _ _ _ _ 8 (natLE_length _ _),
+      Nat.reduceSub, Nat.reduceLeDiff, Nat.reduceAdd, LawfulPtCodec.dec_enc, LawfulScCodec.canon_enc,
+      natLE_leNat mx 8 (by simpa using hmx), ← hm, ← hx, ← hYmdef, ← hYddef, ← hYcdef, ← hc, true_and, and_self, and_true]
+  · have hc1 : ∀ p : Cap.Parsed F G, (challenges T p).1 =
+        (challengeC F T p.Cm p.Cd p.Cc p.maxValue p.ymB p.ydB p.ycB).1 := by
+      intro p; simp only [challenges, challengeScalar]
+    simp only [hc1, ← hc]
+    generalize (challenges T (_ : Cap.Parsed F G)).2 = w
+    simp only [Emax, Edelta, Eclaimed, hYmdef, hYddef, hYcdef, h1, h2, h3, pedersenWith, msm_cons_cons, msm_nil_left]
+    module
+
+/-- at the cap (`percentage_amount = max_value`): the max branch is real, the equality branch is
+    simulated, so the delta commitment is unconstrained -/
+theorem complete_at (Cm Cd Cc : G) (mx delta : ℕ) (rp rd rc : F) (n : Cap.Nonces F) (b : Bytes)
+    (hnew : Cap.new T Cm Cd Cc mx mx delta rp rd rc n = some b)
+    (hmx : mx < 2 ^ 64)
+    (hCm : Cm ≠ 0) (hCd : Cd ≠ 0) (hCc : Cc ≠ 0)
+    (hYm : n.a_ym • Hp ≠ 0)
+    (hYd : msm [n.a_zx, n.a_zd, -n.a_ceq] [Gp, Hp, Cd] ≠ 0)
+    (hYc : msm [n.a_zx, n.a_zc, -n.a_ceq] [Gp, Hp, Cc] ≠ 0) :
+    Cap.verifyProof F G T b = true := by
+  have l := LawfulLen.pt_len (F := F) (G := G)
+  have ls := LawfulLen.sc_len (F := F) (G := G)
+  have hrel : Cm = pedersenWith (ScCodec.ofNat mx : F) rp ∧
+         (mx < mx → Cd = pedersenWith (ScCodec.ofNat delta : F) rd) ∧
+         Cc = pedersenWith (ScCodec.ofNat delta : F) rc := by
+    by_contra hne
+    have := (C20.cap_new_none_iff (T := T) Cm Cd Cc mx mx delta rp rd rc n).mpr hne
+    rw [hnew] at this; cases this
+  obtain ⟨h1, -, h3⟩ := hrel
+  unfold Cap.new at hnew
+  split at hnew
+  · cases hnew
+  split at hnew
+  · cases hnew
+  split at hnew
+  · cases hnew
+  cases hnew
+  set m : F := ScCodec.ofNat mx with hm
+  set Ym : G := n.a_ym • Hp with hYmdef
+  set Yd : G := msm [n.a_zx, n.a_zd, -n.a_ceq] [Gp, Hp, Cd] with hYddef
+  set Yc : G := msm [n.a_zx, n.a_zc, -n.a_ceq] [Gp, Hp, Cc] with hYcdef
+  set c : F := (challengeC F T Cm Cd Cc mx (PtCodec.enc Ym) (PtCodec.enc Yd) (PtCodec.enc Yc)).1 with hc
+  apply (C03.verify_ok_iff _).mpr
+  refine ⟨⟨Cm, Cd, Cc, mx, PtCodec.enc Ym, PtCodec.enc Yd, PtCodec.enc Yc, Ym, Yd, Yc,
+    (c - n.a_ceq) * rp + n.a_ym, c - n.a_ceq, n.a_zx, n.a_zd, n.a_zc⟩,
+    ?_, hCm, hCd, hCc, hYm, hYd, hYc, ?_⟩
+  · apply (C03.parse_spec _ _).mpr
+    simp only [prove, gt_iff_lt, lt_self_iff_false, if_false, proveAboveMax, encodeProof,
+      List.append_assoc, List.length_append, l, ls, natLE_length,
+      ptAt, scAt, slice_here, slice_here', slice_skip _ _ _ _ 32 (l _), slice_skip _ _ _ _ 32 (ls _),
+      slice_skip _ _ _ _ 8 (natLE_length _ _),
+      Nat.reduceSub, Nat.reduceLeDiff, Nat.reduceAdd, LawfulPtCodec.dec_enc, LawfulScCodec.canon_enc,
+      natLE_leNat mx 8 (by simpa using hmx), ← hm, ← hYmdef, ← hYddef, ← hYcdef, ← hc, true_and, and_self, and_true]
+  · have hc1 : ∀ p : Cap.Parsed F G, (challenges T p).1 =
+        (challengeC F T p.Cm p.Cd p.Cc p.maxValue p.ymB p.ydB p.ycB).1 := by
+      intro p; simp only [challenges, challengeScalar]
+    simp only [hc1, ← hc]
+    generalize (challenges T (_ : Cap.Parsed F G)).2 = w
+    simp only [Emax, Edelta, Eclaimed, hYmdef, hYddef, hYcdef, h1, pedersenWith, msm_cons_cons, msm_nil_left, ← hm]
+    module
+
+end Cap
+
+end more
 
 end Zk.Props.C05
